@@ -19,6 +19,20 @@ func MergeEntries(iters []iter.Seq[Entry]) iter.Seq[Entry] {
 	return mergesort.Merge(iters, AscendingEntries, keepNewest)
 }
 
+// WithoutDeletes drops delete markers from a sequence of entries.
+func WithoutDeletes(entries iter.Seq[Entry]) iter.Seq[Entry] {
+	return func(yield func(Entry) bool) {
+		for entry := range entries {
+			if entry.IsDelete() {
+				continue
+			}
+			if !yield(entry) {
+				return
+			}
+		}
+	}
+}
+
 func AscendingEntries(a, b Entry) int {
 	return bytes.Compare(a.Key(), b.Key())
 }
